@@ -83,8 +83,15 @@ func (eng *Engine) load(patterns []string) error {
 			seen[p.Types] = true
 			eng.allTypes = append(eng.allTypes, p.Types)
 			depContracts = append(depContracts, p)
-			for _, ip := range p.Imports {
-				walk(ip)
+			// (in a fixed order: the order of contract files decides the numbering of ghost variables, and the
+			// text of a query must not differ between two runs on the same source)
+			var paths []string
+			for k := range p.Imports {
+				paths = append(paths, k)
+			}
+			sort.Strings(paths)
+			for _, k := range paths {
+				walk(p.Imports[k])
 			}
 		}
 	}
